@@ -79,7 +79,42 @@ def run_c01(tier):
                           'random keys / messages / tags; non-trivial = anything but the accepted canonical signature', exhaustive=True)
 
 
-RUN = {'C01': run_c01}
+# ---------------------------------------------------------------- C02
+def run_c02(tier):
+    ck = vlib.Check('C02', tier, 'model_checking')
+    seed = vlib.seed()
+    c = {'Keys': {'x1', 'x2'}, 'Msgs': {'m1', 'm2', 'm3'}, 'MaxLen': 3 if tier == 'quick' else 4, 'Bug': 'none'}
+    res = vlib.tlc(SPEC, 'BLSAggVerify', vlib.cfg(c, invariants=['GroupingDecidesDefinition', 'Emit']), name='agg', timeout=3000)
+    if not res.ok:
+        raise vlib.Undecided('BLSAggVerify: %s %s' % (res.violated, res.error))
+    ck.add_states(res, 'aggregate verification: every input list of length <= %d over 5 key objects x 3 messages x 6 signature classes, every map order' % c['MaxLen'])
+    neg = vlib.tlc(SPEC, 'BLSAggVerify', vlib.cfg(dict(c, MaxLen=3, Bug='offset'), invariants=['GroupingDecidesDefinition']), name='aggneg')
+    if 'GroupingDecidesDefinition' not in neg.violated:
+        raise vlib.Undecided('negative control (offset bookkeeping) not detected')
+    ck.cov['negative_controls'] = 1
+    cases = tlc_cases(res.out)
+    jobs = [{'kind': 'aggverify', 'seed': seed * 1000003 + i, 'case': c} for i, c in enumerate(cases)]
+    for k in range(2 if tier == 'quick' else 10):
+        jobs.append({'kind': 'aggverify-args', 'seed': seed * 31 + k, 'case': {}})
+        jobs.append({'kind': 'aggverify-large', 'seed': seed * 37 + k, 'case': {}})
+    execute(ck, 'C02', jobs)
+    paths = {'per-message': 0, 'per-key': 0}
+    for c in cases:
+        paths[c['path']] += 1
+        ck.case(vlib.digest([c['inp'], c['sig']]), len(c['inp']) > 1)
+    if min(paths.values()) == 0:
+        raise vlib.Undecided('one of the two C paths was never selected: %s' % paths)
+    ck.cov['cases_per_c_path'] = paths
+    ck.cov['traces_validated_against_impl'] = len(cases)
+    ck.sample(cases[0])
+    ck.sample(cases[len(cases) // 2])
+    ck.assumptions = ['H(m) from the library under sk = 1; sums, negation, torsion and encodings by harness/ref',
+                      'exhaustive over lists of length <= %d; 7..33 groups sampled' % (3 if tier == 'quick' else 4)]
+    return ck.finish(rule='cases = (input list of (key object, message), signature class) enumerated by TLC; every case also re-run with the '
+                          'triples permuted; non-trivial = more than one triple', exhaustive=True)
+
+
+RUN = {'C01': run_c01, 'C02': run_c02}
 
 
 def run(prop, tier):
